@@ -5,6 +5,14 @@ for l in open('/verif/properties.jsonl'):
     d=json.loads(l)
     if d['id']==pid: break
 wt=f"/tmp/mut/{pid}"
+import glob, os
+prev=[]
+for f in sorted(glob.glob(f"/verif/seeded/{pid}_m*/meta.json")):
+    try: prev.append(json.load(open(f)).get("summary") or "")
+    except Exception: pass
+prev_txt = ""
+if prev and len(sys.argv) > 2 and sys.argv[2] == "round2":
+    prev_txt = "\nEarlier volunteers already produced the following changes for this property. Yours must be DIFFERENT in location and in kind (another function / file / mechanism; not the same idea applied elsewhere):\n" + "\n".join(f"  - {x[:300]}" for x in prev) + "\nAlso avoid these overused ideas: a hidden static/thread_local scratch or cache, a changed Taylor/series threshold, an in-place aliasing slip in operator*=, a hard-coded offset that is only right for one template parameter. Prefer: wrong case split / boundary inclusion, swapped or transposed index that is invisible for symmetric or square data, a sign or factor that only matters for one overload / one scalar type / one storage type (Map vs value, sparse vs dense, static vs dynamic size), an off-by-one in a loop bound or segment bookkeeping, a missing term in a rarely requested optional output, a state field that one mutator forgets to update, a normalisation / canonicalisation dropped on one construction path.\n"
 print(f"""You are helping to evaluate a verification effort by playing the role of a developer who accidentally breaks a library.
 
 Work ONLY inside the git worktree {wt} (a checkout of the header-only C++20 Lie-group library pettni/smooth). Do NOT read, list or touch /verif or /repo or any other directory outside {wt} (except system headers and /usr/include/eigen3 for reference).
@@ -16,6 +24,7 @@ The library is supposed to satisfy this semantic property:
   CODE ANCHORS (where the behaviour lives): {json.dumps(d['anchors'].get('files'))}
   MECHANISMS: {json.dumps(d['anchors'].get('mechanism'))}
 
+{prev_txt}
 YOUR TASK: produce TWO different, realistic changes to the library (files under {wt}/include/ only) each of which BREAKS this property while
  (1) the library and the whole existing test suite still compile,
  (2) the WHOLE existing test suite still passes (all ctest entries),
